@@ -54,6 +54,7 @@ func TestCorpusParses(t *testing.T) {
 	}
 	sort.Strings(files)
 	var results []corpusResult
+	runStats := map[string]int{}
 	skippedFront, skippedBackend, total := 0, 0, 0
 	for _, f := range files {
 		b, err := os.ReadFile(f)
@@ -101,8 +102,26 @@ func TestCorpusParses(t *testing.T) {
 					continue
 				}
 				total++
-				_, perr := Parse(GLSL, txt)
+				prog, perr := Parse(GLSL, txt)
 				results = append(results, corpusResult{filepath.Base(f), ep.Name, v.String(), perr})
+				if prog != nil {
+					// smoke run over zero-filled buffers: must never panic
+					cfg := RunConfig{NumWorkgroups: [3]uint32{1, 1, 1}, StepLimit: 300000, BlockByName: map[string][]byte{}}
+					for _, b := range prog.Blocks() {
+						cfg.BlockByName[b.Name] = make([]byte, 1024)
+					}
+					res, rerr := prog.Run(cfg)
+					switch {
+					case rerr != nil:
+						runStats["error: "+firstWords(rerr.Error(), 4)]++
+					case res.Trap != "":
+						runStats["trap: "+firstWords(res.Trap, 4)]++
+					case len(res.Poison) > 0:
+						runStats["poison"]++
+					default:
+						runStats["clean"]++
+					}
+				}
 			}
 		}
 	}
@@ -131,6 +150,9 @@ func TestCorpusParses(t *testing.T) {
 	for _, k := range sortedKeys(unsupWhat) {
 		t.Logf("  unsupported x%d: %s", unsupWhat[k], k)
 	}
+	for _, k := range sortedKeys(runStats) {
+		t.Logf("  smoke run x%d: %s", runStats[k], k)
+	}
 	untriaged := 0
 	for _, k := range sortedKeys(invalidByMsg) {
 		where := invalidByMsg[k]
@@ -154,6 +176,14 @@ func TestCorpusParses(t *testing.T) {
 	if total > 0 && unsup*5 > total {
 		t.Errorf("more than 20%% of the corpus is unsupported (%d of %d)", unsup, total)
 	}
+}
+
+func firstWords(s string, n int) string {
+	f := strings.Fields(s)
+	if len(f) > n {
+		f = f[:n]
+	}
+	return strings.Join(f, " ")
 }
 
 // triagedNagaDefects: substrings of InvalidError messages on corpus outputs
